@@ -407,6 +407,12 @@ func bases() []scenario {
 				Steps: []step{{Op: "mine", Tx: 1, Block: 101, Logs: logs}, {Op: "poll"}, {Op: "head+", N: at}, {Op: "poll"}, {Op: "reobs", Tx: 1}, {Op: "head+", N: 3}, {Op: "poll"}, {Op: "reobs", Tx: 1}}})
 		}
 	}
+	// two messages of the SAME level in one transaction: both become ready with the same head
+	for _, wc := range []bool{true, false} {
+		logs := []ethh.LogSpec{core(5, 1), core(6, 1)}
+		out = append(out, scenario{Name: fmt.Sprintf("same-level-one-tx/wait=%v", wc), WaitConf: wc, Level: 1,
+			Steps: []step{{Op: "mine", Tx: 1, Block: 101, Logs: logs}, {Op: "poll"}, {Op: "head+", N: 2}, {Op: "poll"}, {Op: "head+", N: 1}, {Op: "poll"}}})
+	}
 	// slow answers: a node call of the watcher is suspended while the chain moves (the answer order of the
 	// node is owned by the harness); on the re-observation path and on the per-head scan
 	for _, m := range []string{"eth_getBlockByNumber", "eth_getTransactionReceipt", "eth_getBlockByHash"} {
@@ -538,7 +544,9 @@ func main() {
 		}
 		// slow-node scenarios are not edited: an edit can let ONE answer take longer than the watcher's deadline,
 		// which the watcher cannot tell from a node that failed to confirm (outside the statement)
-		if (r.Thorough() || bi%3 == 0) && !strings.HasPrefix(sc.Name, "slow-node/") {
+		// transactions with several messages are always expanded (an RPC fault at the head at which both are ready)
+		multi := strings.HasPrefix(sc.Name, "two-levels-one-tx/") || strings.HasPrefix(sc.Name, "two-txs/") || strings.HasPrefix(sc.Name, "same-level-one-tx/")
+		if (r.Thorough() || bi%3 == 0 || multi) && !strings.HasPrefix(sc.Name, "slow-node/") {
 			for _, h := range edits1(sc.Steps, menu()) {
 				run(sc, h, true)
 			}
